@@ -262,6 +262,8 @@ fn leaf_rank(t: &Ty) -> usize {
         Ty::U64 => 1,
         Ty::String => 2,
         Ty::Flags(n) | Ty::Enum(n) => 3 + *n as usize,
+        Ty::Borrow(_) => 4,
+        Ty::Future(_) | Ty::Stream(_) => 5,
         _ => 3,
     }
 }
@@ -339,7 +341,12 @@ pub fn shrink_candidates(t: &Ty) -> Vec<Ty> {
     let kids: Vec<Ty> = t.children().into_iter().cloned().collect();
     for (i, k) in kids.iter().enumerate() {
         out.extend(replace_child(t, i, None));
-        for leaf in [Ty::U8, Ty::U64, Ty::String] {
+        let mut leaves = vec![Ty::U8, Ty::U64, Ty::String];
+        if matches!(k, Ty::Future(_) | Ty::Stream(_) | Ty::Borrow(_)) {
+            // handle-like leaves collapse to the plain owned handle
+            leaves.push(Ty::Own(0));
+        }
+        for leaf in leaves {
             if *k != leaf {
                 let is_map_key = matches!(t, Ty::Map(..)) && i == 0;
                 if is_map_key && leaf == Ty::U64 {
